@@ -57,6 +57,8 @@ func vxRunCode() int
 func vxTraceChan(ch interface{})
 func vxTraceMutex(p interface{})
 func vxTraceMark(s string)
+func vxFieldChan(obj interface{}, idx int) interface{}
+func vxChanCap(ch interface{}) int
 func vxRaceLog(on bool)
 func vxRaceAnalyse() int
 func vxRaceAnalyseAll() int
